@@ -215,13 +215,33 @@ def harness_gen(op, seed, n, tier, start=0):
     return [l for l in rc.stdout.decode("utf-8").split("\n") if l]
 
 
+def parse_races(stderr_text):
+    """race detector reports per case id (the harness prints `CASE <id>` markers when VERIF_MARK is set)"""
+    races = {}
+    cur = None
+    for seg in re.split(r"\nCASE ", "\n" + stderr_text):
+        if not seg.strip():
+            continue
+        head, _, body = seg.partition("\n")
+        cur = head.strip()
+        n = body.count("WARNING: DATA RACE")
+        if n:
+            m = re.search(r"WARNING: DATA RACE.*?(?=\n==================|\Z)", body, re.S)
+            races[cur] = (n, (m.group(0) if m else body)[:3000])
+    return races
+
+
 def run_cases(lines, harness="harness", timeout=7200):
     """lines: JSON strings with op,id,in. Returns list of (case_with_out, verdict)."""
     if not lines:
         return []
     data = ("\n".join(lines) + "\n").encode("utf-8")
+    env = dict(os.environ)
+    if harness.endswith("-race"):
+        env["VERIF_MARK"] = "1"
+        env["GORACE"] = "halt_on_error=0 exitcode=0"
     h = subprocess.run([os.path.join(BIN, harness), "run"], input=data, stdout=subprocess.PIPE, stderr=subprocess.PIPE,
-                       timeout=timeout, cwd=SCRATCH)
+                       timeout=timeout, cwd=SCRATCH, env=env)
     outs = [l for l in h.stdout.decode("utf-8", "replace").split("\n") if l]
     crashed = None
     if h.returncode != 0 or len(outs) != len(lines):
@@ -234,8 +254,14 @@ def run_cases(lines, harness="harness", timeout=7200):
         raise RuntimeError("driver failed (rc=%s, %d verdicts for %d cases): %s" %
                            (d.returncode, len(verdicts), len(outs), d.stderr.decode("utf-8", "replace")[-2000:]))
     res = []
+    races = parse_races(h.stderr.decode("utf-8", "replace")) if harness.endswith("-race") else {}
     for o, v in zip(outs, verdicts):
-        res.append((json.loads(o), json.loads(v)))
+        c, vv = json.loads(o), json.loads(v)
+        if c.get("id") in races:
+            n, rep = races[c["id"]]
+            funcs = sorted(set(re.findall(r"github\.com/carapace-sh/carapace[\w./()*]*", rep)))[:8]
+            vv.setdefault("fails", []).append({"prop": "C09", "code": "data_race", "detail": "%d report(s); %s\n%s" % (n, " ".join(funcs), rep[:1500])})
+        res.append((c, vv))
     if crashed is not None:
         bad = json.loads(lines[crashed["index"]]) if crashed["index"] < len(lines) else {}
         res.append((bad, {"id": bad.get("id", "?"), "op": bad.get("op", "?"), "same": False,
